@@ -276,4 +276,12 @@ def faults(ctx, ch):
         err = KINDS_ERR.get(kind)
         if err:
             out.append({"kind": kind, "k": kk, "when": "before", "exc": err})
+        if kk % 3 == 0 and kind != "clock":
+            # any other signal whose handler raises (SIGTERM -> sys.exit()): not an Exception
+            # subclass, not KeyboardInterrupt either
+            out.append({"kind": kind, "k": kk, "when": "before", "exc": "SystemExit"})
+        if kind in ("out.write", "out.flush") and kk % 2:
+            # the stream shuts itself down when its device fails (the terminal's own
+            # descriptor stays open): everything draw() writes afterwards fails as well
+            out.append({"kind": kind, "k": kk, "when": "before", "exc": err, "closes": True})
     return out
